@@ -236,6 +236,11 @@ func exec(kind string, h []event) (string, string, *seqx.Failure) {
 		if atInstant {
 			last += "@instant"
 		}
+		if step == len(h)-1 {
+			if f := sparseReplicas(kind, h, nrep, must, may, atInstant); f != nil {
+				return "", "", f
+			}
+		}
 	}
 	now := clk.Now()
 	var ms []string
@@ -248,6 +253,53 @@ func exec(kind string, h []event) (string, string, *seqx.Failure) {
 		canon += "|" + sj.phys(now)
 	}
 	return canon, last, nil
+}
+
+// sparseReplicas: the replicas above are asked after EVERY event, so an answer remembered from an earlier query
+// (a cached listing) is always refreshed one event later. Here replica j is asked only after event j (j = -1:
+// never) and after the last event: whatever it remembered at j must not show at the end, whatever happened in
+// between. Every prefix of h is a history of its own in the search, so only the final answers are judged here.
+func sparseReplicas(kind string, h []event, nrep int, must, may []string, atInstant bool) *seqx.Failure {
+	for j := -1; j < len(h)-1; j++ {
+		clk := clockwork.NewFakeClockAt(t0)
+		s := build(kind, clk)
+		order := (j + 1) % nrep
+		for step, e := range h {
+			switch e.Op {
+			case "add":
+				s.add(e.K)
+			case "remove":
+				s.remove(e.K)
+			case "adv":
+				clk.Advance(e.D)
+			}
+			if step == j {
+				s.queries(order, keys)
+			}
+		}
+		q := s.queries(order, keys)
+		var names []string
+		for n := range q {
+			names = append(names, n)
+		}
+		sort.Strings(names)
+		when := "never before"
+		if j >= 0 {
+			when = fmt.Sprintf("only after step %d %v", j, h[j])
+		}
+		for _, n := range names {
+			v := q[n]
+			okv := v == strings.Join(must, ",") || v == strings.Join(may, ",")
+			if strings.HasSuffix(n, "#") {
+				okv = v == fmt.Sprint(len(must)) || v == fmt.Sprint(len(may))
+			}
+			if !okv {
+				return &seqx.Failure{Sig: fmt.Sprintf("%s:stale-answer-from-an-earlier-query:%s%s", kind, n, instTag(atInstant)),
+					What: fmt.Sprintf("after %v, a structure that was queried %s answers %s=%q; the TTL model requires %q (or %q at the expiry instant)", h, when, n, v, strings.Join(must, ","), strings.Join(may, ","))}
+			}
+		}
+	}
+	return nil
 }
 
 func instTag(b bool) string {
@@ -269,6 +321,8 @@ func main() {
 			Enabled:  func(h []event) []event { return alphabet },
 			Exec:     func(h []event) (string, string, *seqx.Failure) { return exec(k, h) },
 			MaxDepth: depth, Workers: 16,
+			// every history of length <= 5 (8^5) is executed whatever the canonical key says
+			NoMergeDepth: 4,
 		})
 	}
 	// every explored history IS an execution of the implementation (no separate model to conform):
